@@ -547,6 +547,73 @@ impl WorkStealingExecutor {
     }
 }
 
+/// Verification hooks (compiled only with `--cfg zipora_verif`; add-only, nothing else changes):
+/// an executor whose worker loops are not started, so that a harness can drive the real
+/// `submit` / `find_task` / `balance` in any interleaving it chooses, deterministically.
+#[allow(unexpected_cfgs)]
+mod verif_hooks {
+    #[cfg(zipora_verif)]
+    use super::*;
+
+    #[cfg(zipora_verif)]
+    impl WorkStealingExecutor {
+        /// Same construction as `new`, but no worker task is spawned (no runtime needed).
+        pub fn verif_new_paused(num_workers: usize, queue_capacity: usize) -> Result<Arc<Self>> {
+            if num_workers == 0 {
+                return Err(ZiporaError::invalid_data("num_workers cannot be zero"));
+            }
+            let mut workers = Vec::with_capacity(num_workers);
+            let mut queues = Vec::with_capacity(num_workers);
+            for i in 0..num_workers {
+                let queue = Arc::new(WorkStealingQueue::new(i, queue_capacity));
+                queues.push(queue.clone());
+                workers.push(WorkerThread { id: i, handle: None, queue });
+            }
+            Ok(Arc::new(Self {
+                workers,
+                queues,
+                global_queue: Arc::new(Mutex::new(VecDeque::new())),
+                stats: Arc::new(ExecutorStatsInner {
+                    total_executed: AtomicUsize::new(0),
+                    active_tasks: AtomicUsize::new(0),
+                    active_workers: AtomicUsize::new(num_workers),
+                    total_steals: AtomicUsize::new(0),
+                    total_execution_time_us: AtomicUsize::new(0),
+                }),
+                shutdown: Arc::new(AtomicBool::new(false)),
+                next_worker: AtomicUsize::new(0),
+            }))
+        }
+
+        /// What worker `worker_id`'s loop does to obtain its next task: the real `find_task`
+        /// with the same `other_queues` order as `worker_loop` builds.
+        pub fn verif_find_task(&self, worker_id: usize) -> Option<Box<dyn Task>> {
+            let other_queues: Vec<_> = self
+                .queues
+                .iter()
+                .enumerate()
+                .filter(|(id, _)| *id != worker_id)
+                .map(|(_, queue)| queue.clone())
+                .collect();
+            Self::find_task(&self.queues[worker_id], &other_queues, &self.global_queue, &self.stats)
+        }
+
+        /// The periodic `my_queue.balance()` of worker `worker_id`.
+        pub fn verif_balance(&self, worker_id: usize) {
+            self.queues[worker_id].balance();
+        }
+
+        /// (local, steal) queue lengths of a worker and the global queue length.
+        pub fn verif_queue_lens(&self, worker_id: usize) -> (usize, usize, usize) {
+            let q = &self.queues[worker_id];
+            let l = q.local_queue.lock().unwrap_or_else(|e| e.into_inner()).len();
+            let s = q.steal_queue.lock().unwrap_or_else(|e| e.into_inner()).len();
+            let g = self.global_queue.lock().unwrap_or_else(|e| e.into_inner()).len();
+            (l, s, g)
+        }
+    }
+}
+
 #[cfg(test)]
 mod tests {
     use super::*;
